@@ -5,6 +5,7 @@ import (
 
 	beacon "github.com/oasisprotocol/oasis-core/go/beacon/api"
 	"github.com/oasisprotocol/oasis-core/go/common/cbor"
+	"github.com/oasisprotocol/oasis-core/go/common/crypto/signature"
 	"github.com/oasisprotocol/oasis-core/go/common/entity"
 	"github.com/oasisprotocol/oasis-core/go/common/node"
 	"github.com/oasisprotocol/oasis-core/go/consensus/cometbft/api"
@@ -253,6 +254,31 @@ func (app *Application) registerNode( // nolint: gocyclo
 	)
 	if err != nil {
 		return err
+	}
+
+	// A public key may only ever be associated with one registered node. The verification above
+	// makes sure that none of the node's consensus, P2P, TLS and VRF keys is one of those keys of
+	// another node, additionally make sure that none of them is the identity key of another node
+	// and that the node's identity key is not one of those keys of another node.
+	for _, key := range []signature.PublicKey{newNode.Consensus.ID, newNode.P2P.ID, newNode.TLS.PubKey, newNode.VRF.ID} {
+		switch other, nerr := state.Node(ctx, key); nerr {
+		case nil:
+			if !other.ID.Equal(newNode.ID) {
+				return fmt.Errorf("%w: node key is the identity key of another node", registry.ErrInvalidArgument)
+			}
+		case registry.ErrNoSuchNode:
+		default:
+			return nerr
+		}
+	}
+	switch other, nerr := state.NodeBySubKey(ctx, newNode.ID); nerr {
+	case nil:
+		if !other.ID.Equal(newNode.ID) {
+			return fmt.Errorf("%w: node identity key is a key of another node", registry.ErrInvalidArgument)
+		}
+	case registry.ErrNoSuchNode:
+	default:
+		return nerr
 	}
 
 	// Make sure the signer of the transaction is the node identity key.
